@@ -197,3 +197,71 @@ def random_project(rng: random.Random, nmods: int = 5) -> Dict[str, Any]:
 def _path(mods: List[Dict[str, Any]], i: int) -> List[str]:
     m = mods[i - 1]
     return (_path(mods, m["par"]) if m["par"] else []) + [m["name"]]
+
+
+# ------------------------------------------------------------------------------------ C04 family
+
+C04_FORMS = {
+    # name -> (ops builder given consumer level info, local dotted name of class A afterwards)
+    "import_abs": lambda nested: ([imp("p.a")], "p.a.A"),
+    "import_as": lambda nested: ([imp("p.a", "x")], "x.A"),
+    "from_pkg_abs": lambda nested: ([frm("p", "a")], "a.A"),
+    "from_pkg_rel": lambda nested: ([frm("", "a", lvl=2 if nested else 1)], "a.A"),
+    "from_mod_rel": lambda nested: ([frm("a", "A", lvl=2 if nested else 1)], "A"),
+    "from_mod_rel_as": lambda nested: ([frm("a", "A", "Y", lvl=2 if nested else 1)], "Y"),
+    "from_mod_abs": lambda nested: ([frm("p.a", "A")], "A"),
+    "star": lambda nested: ([star("a", lvl=2 if nested else 1)], "A"),
+    "from_mod_func": lambda nested: ([frm("p.a", "f", "g")], None),
+    "from_sub": lambda nested: ([frm("p.q.t", "T")], None),
+    "import_sub_as": lambda nested: ([imp("p.q.t", "tt")], None),
+    "from_subpkg": lambda nested: ([frm("p.q", "t")], None),
+}
+
+
+def t_c04() -> Iterator[Dict[str, Any]]:
+    """Acyclic projects, globally unique definition names, one binding per name per scope; every import form,
+       at module scope and inside a class body, from a sibling module and from a module of a sub-package."""
+    names = list(C04_FORMS)
+    for nested in (False, True):
+        for scope in ("module", "class"):
+            for f1, f2 in itertools.combinations(names, 2):
+                o1, loc1 = C04_FORMS[f1](nested)
+                o2, loc2 = C04_FORMS[f2](nested)
+                bound = [o.get("as") or (o["m"][0] if o["k"] == "import" else None) for o in o1 + o2]
+                if len(set(bound)) != len(bound) and None not in bound:
+                    continue
+                if f1 == "star" or f2 == "star":
+                    # a star import binds A, In..., so an explicit binding of A would be a second binding
+                    if any(x in ("from_mod_rel", "from_mod_abs") for x in (f1, f2)):
+                        continue
+                loc = loc1 or loc2
+                body: List[Any] = list(o1) + list(o2)
+                if loc:
+                    body += cls("Sub", loc) + [alias("al", loc)] + ([alias("inn", loc + ".In")])
+                ops = flat(cls("K", body=body)) if scope == "class" else flat(body)
+                mods = [mod("p", pkg=True),
+                        mod("a", 1, ops=flat(cls("A", body=flat(cls("In"), fn("meth"))), fn("f"), var("v")),
+                            all=None),
+                        mod("q", 1, pkg=True), mod("t", 3, ops=flat(cls("T")))]
+                mods.append(mod("c", 3 if nested else 1, ops=ops))
+                yield project(mods, "C04", nested=nested, scope=scope, forms=[f1, f2])
+    # star import honouring __all__ (hidden names must not be bound)
+    yield project([mod("p", pkg=True), mod("a", 1, ops=flat(cls("A"), cls("B2"), fn("f")), all=["A"]),
+                   mod("c", 1, ops=flat(star("a", lvl=1), cls("Sub", "A")))], "C04", star_all=True)
+    # chains of re-imports (pydoctor may leave them unresolved, never resolve them wrongly)
+    yield project([mod("p", pkg=True, ops=[frm("a", "A", lvl=1)]), mod("a", 1, ops=flat(cls("A"))),
+                   mod("c", 1, ops=flat(frm("p", "A"), cls("Sub", "A"))),
+                   mod("d", 1, ops=flat(frm("c", "A", "Z", lvl=1), cls("Sub2", "Z")))], "C04", chain=True)
+
+
+def t_c04_pkginit() -> Iterator[Dict[str, Any]]:
+    """The consumer is a package's own __init__ (relative levels count from the package itself), module and class scope."""
+    for scope in ("module", "class"):
+        for form in ("dd_mod", "d_mod", "d_pkg", "dd_pkg"):
+            body = {"dd_mod": flat(frm("a", "A", lvl=2), cls("Sub", "A")),
+                    "d_mod": flat(frm("t", "T", lvl=1), cls("Sub", "T")),
+                    "d_pkg": flat(frm("", "t", lvl=1), cls("Sub", "t.T")),
+                    "dd_pkg": flat(frm("", "a", lvl=2), cls("Sub", "a.A"))}[form]
+            ops = flat(cls("K", body=body)) if scope == "class" else body
+            yield project([mod("p", pkg=True), mod("a", 1, ops=flat(cls("A"))),
+                           mod("q", 1, pkg=True, ops=ops), mod("t", 3, ops=flat(cls("T")))], "C04", pkginit=form, scope=scope)
